@@ -40,6 +40,9 @@ THEOREMS = [
     "C16_universe_partial",
     "C16_universe_refuted",
     "C16_universe_setUniverse",
+    "C16_linked_blank",
+    "C16_linked_step",
+    "C16_linked",
 ]
 
 KINDS = links.KINDS
